@@ -18,7 +18,7 @@ from vlib import harness
 
 ID = "C01"
 LEVEL = "exploration"
-RULE = ("a case is one Parallel call: N in {0,1,..around k*n_jobs*batch +-1..,200} x n_jobs x batch_size (1,2,3,7,'auto') x "
+RULE = ("a case is one Parallel call: N in {0,1,..around k*n_jobs*batch +-1..,200} x n_jobs x batch_size (1,2,3,7,25,40,'auto') x "
         "pre_dispatch (1,2,'n_jobs','2*n_jobs','1.5*n_jobs','all',3*n, and forms that evaluate to 0: 0, 'n_jobs//16', '0.1*n_jobs', 'n_jobs-n_jobs') x return_as (list, generator), on (a) the scripted "
         "backend with a seeded completion order, 1-3 callback threads, optional synchronous in-submit completion and "
         "seeded pre-emption injection on joblib/parallel.py, or (b) a real backend with seeded task durations, or (c) two generator "
@@ -69,11 +69,14 @@ def cases(tier, seed):
 
 def gen_config(rng):
     J = rng.choice([2, 2, 3, 4, 8])
-    b = rng.choice([1, 1, 2, 3, 7, "auto", "auto"])
+    b = rng.choice([1, 1, 2, 3, 7, "auto", "auto", 25, 40])
     pd = rng.choice(["2*n_jobs", "n_jobs", 1, 2, 3, "all", "1.5*n_jobs", 3 * J, "2*n_jobs", rng.choice([0, "n_jobs//16", "0.1*n_jobs", "n_jobs-n_jobs"])])
     bb = 1 if b == "auto" else b
     edge = rng.choice([1, 2, 3]) * J * bb + rng.choice([-1, 0, 1])
     N = rng.choice([0, 1, 2, 3, 5, 8, 13, 24, 40, max(0, edge), max(0, edge), 200 if rng.random() < 0.15 else 31])
+    if bb >= 21:
+        # large batches: the last look-ahead slice (shorter than n_jobs*batch_size, re-cut into smaller batches) has many shapes
+        N = rng.randrange(0, 3 * J * bb)
     return dict(N=N, J=J, b=b, pd=pd, ra=rng.choice(["list", "generator"]))
 
 
@@ -218,6 +221,8 @@ def run_real(case, ctx):
         if backend in ("loky", "multiprocessing"):
             c["J"] = min(c["J"], 4)
             c["N"] = min(c["N"], 60)
+        else:
+            c["N"] = min(c["N"], 130)
         if backend == "sequential":
             c["J"] = 1
         if backend == "multiprocessing":
